@@ -257,3 +257,75 @@ def r7(ctx, R):
 def r8(ctx, R):
     from . import c06
     c06.r1(ctx, R)
+
+
+def _bodies(node):
+    for n in ast.walk(node):
+        for attr in ('body', 'orelse', 'finalbody'):
+            b = getattr(n, attr, None)
+            if isinstance(b, list) and b and isinstance(b[0], ast.stmt):
+                yield b
+
+
+def _assigns_name(stmt, name):
+    for s in ast.walk(stmt):
+        tg = s.targets if isinstance(s, ast.Assign) else [s.target] if isinstance(s, (ast.AugAssign, ast.AnnAssign)) else []
+        for t in tg:
+            if any(isinstance(n, ast.Name) and n.id == name for n in ast.walk(t)):
+                return True
+    return False
+
+
+def _loads_name(stmt, name):
+    return any(isinstance(n, ast.Name) and n.id == name and isinstance(n.ctx, ast.Load) for n in ast.walk(stmt))
+
+
+def stale_active_slots(fn):
+    """-> list of (lineno of the `active_slots = compress(slots, active)` statement, lineno of a later write of `active` that the
+    statement does not see although the next reader of active_slots comes after it).  Syntax-directed walk over the statement list that
+    holds the compression: the compression must read the FINAL mask of the block."""
+    sites = []
+    for body in _bodies(fn):
+        for i, s in enumerate(body):
+            if isinstance(s, ast.Assign) and any(isinstance(t, ast.Name) and t.id == 'active_slots' for t in s.targets) and _loads_name(s.value, 'active'):
+                stale = None
+                for later in body[i + 1:]:
+                    if _assigns_name(later, 'active_slots'):
+                        break
+                    if _assigns_name(later, 'active') and stale is None:
+                        stale = later.lineno
+                    if _loads_name(later, 'active_slots'):
+                        break
+                else:
+                    # the statement list ended without another reader: the loop head / the next iteration reads it
+                    pass
+                sites.append((s.lineno, stale))
+    return sites
+
+
+_R9_CONTROL = '''
+def run(self, slots, time, Tend):
+    active = [time[p] < Tend for p in slots]
+    active_slots = list(itertools.compress(slots, active))
+    if not all(active) and any(active):
+        active = [True] * len(active)
+    self.restart_block(active_slots, time, None)
+'''
+
+
+@rule('C15', 'C15.R9', 'the block is restarted with the steps of the FINAL activity mask: in run() of the serial controllers `active_slots = compress(slots, active)` is computed after the last write of `active` of that block (ParaDiag overrides the mask to "all steps" when Tend falls inside a block, because its transforms, G_inv and the 1/L weights span the whole block) - a compression taken before the override restarts fewer steps than the all-at-once system couples', floor=4)
+def r9(ctx, R):
+    repo = ctx.repo
+    ctl = stale_active_slots(ast.parse(_R9_CONTROL).body[0])
+    if len(ctl) != 1 or ctl[0][1] is None:
+        raise AnalysisError('C15.R9: the embedded control (compression before the override) is not recognised')
+    n = 0
+    for rel, cn in ((PC, 'controller_ParaDiag_nonMPI'), ('pySDC/implementations/controller_classes/controller_nonMPI.py', 'controller_nonMPI')):
+        fn = repo.func(rel, f'{cn}.run')
+        w = f'{rel}:{cn}.run'
+        R.fn(w)
+        for line, stale in stale_active_slots(fn):
+            n += 1
+            R.check(stale is None, f'{cn}.run :: active_slots (#{n}) is compressed from the final `active` of the block', w, 'no write of `active` between the compression and the next reader of active_slots', f'`active` is written again at line {stale}, after the compression at line {line}' if stale else 'final')
+    if n < 4:
+        raise AnalysisError(f'C15.R9: only {n} compressions of the slot list found in the serial run() loops')
